@@ -58,21 +58,31 @@ namespace fsh
             double dt = l.ndbl();
             auto ev = l.ndbls(n);
             int reps = l.more() ? static_cast<int>(l.nint()) : 1;
+            // "keep": go on with the eroder object of the previous adi call of this scenario and
+            // hand it the diffusivity through set_k_coef (state kept between steps must not leak)
+            bool keep = l.more() && l.next() == "keep";
+            static std::unique_ptr<eroder_t> kept;
             auto shape = grid.shape();
             std::vector<std::size_t> sh(shape.begin(), shape.end());
             xt::xarray<double> elev = xt::xarray<double>::from_shape(sh);
             std::copy(ev.begin(), ev.end(), elev.begin());
             try
             {
-                std::unique_ptr<eroder_t> er;
-                if (kk == "s")
+                std::unique_ptr<eroder_t>& er = kept;
+                xt::xtensor<double, 2> ka = xt::zeros<double>({ sh[0], sh[1] });
+                if (kk != "s")
+                    std::copy(kv.begin(), kv.end(), ka.begin());
+                if (keep && er)
+                {
+                    if (kk == "s")
+                        er->set_k_coef(ks);
+                    else
+                        er->set_k_coef(ka);
+                }
+                else if (kk == "s")
                     er = std::make_unique<eroder_t>(grid, ks);
                 else
-                {
-                    xt::xtensor<double, 2> ka = xt::zeros<double>({ sh[0], sh[1] });
-                    std::copy(kv.begin(), kv.end(), ka.begin());
                     er = std::make_unique<eroder_t>(grid, ka);
-                }
                 for (int rep = 0; rep < reps; ++rep)
                 {
                     const auto& ero = er->erode(elev, dt);
